@@ -2,3 +2,4 @@ pub mod engine;
 pub mod gen;
 pub mod props;
 pub mod refcodec;
+pub mod refcrypto;
